@@ -15,6 +15,20 @@ Theorem C15_get_shelf_ids_of_names :
 Proof. exact get_shelf_ids_names. Qed.
 Print Assumptions C15_get_shelf_ids_of_names.
 
+(* only whole names are shelves (fullmatch, since 56cc459): an accepted name is "shelf-" followed by a
+   digit string without leading zero whose value is the id; nothing may follow *)
+Theorem C15_match_shelf_exact :
+  forall fn n, match_shelf fn = Some n ->
+    exists c d, fn = PREFIX ++ c :: d /\ (49 <= c <= 57)%N /\ forallb is_dec_char d = true
+                /\ parse_dec (c :: d) = Some n.
+Proof. exact match_shelf_exact. Qed.
+Print Assumptions C15_match_shelf_exact.
+
+(* the OLD start-anchored pattern counted stray files such as shelf-1x as shelf 1 *)
+Example C15_old_match_shelf_stray :
+  match_shelf_old (PREFIX ++ [49; 120]%N) = Some 1%N /\ match_shelf (PREFIX ++ [49; 120]%N) = None.
+Proof. exact match_shelf_old_stray. Qed.
+
 (* new_shelf returns 1 + max existing (1 if none), at any point of any operation sequence, and
    that is strictly above every id live at that point (so never equal to one of them) *)
 Theorem C15_ids_new_is_succ_max :
